@@ -1,1 +1,34 @@
-From WT Require Import Base.Wrap.
+(** * C11 — sum-copy stores the sum; sum-diff agrees with it.
+    sum-copy is [copy_core] with the sum as the source and NaN copying on; sum-diff is [diff_core]
+    without the range check.  The theorems of C08, C09 and C10 therefore apply verbatim. *)
+From WT Require Import Base.Wrap Base.ListX Model.Time Model.Ring Model.Update Model.Handle Model.Cmd Proofs.CmdProofs.
+
+Theorem C11_sumcopy_is_copy_of_sum F files dest o now :
+  sum_copy_item F files dest o now =
+  copy_core F (sum_files F files (co_archive o) (co_from o) (resolve_until (co_until o) now) now) dest
+    (mkCopyOpts (co_from o) (co_until o) (co_archive o) true (co_method o) (co_xff o) (co_layout o))
+    (resolve_until (co_until o) now) now.
+Proof. reflexivity. Qed.
+Print Assumptions C11_sumcopy_is_copy_of_sum.
+
+Theorem C11_sumdiff_is_diff_with_sum F fsub files dest aid from until0 now :
+  sum_diff_item F fsub files dest aid from until0 now =
+  diff_two fsub false (sum_files F files aid from (resolve_until until0 now) now)
+                      (read_file dest aid from (resolve_until until0 now) now).
+Proof. reflexivity. Qed.
+Print Assumptions C11_sumdiff_is_diff_with_sum.
+
+(** a destination that holds exactly the sum is reported clean *)
+Theorem C11_sumdiff_clean_on_equal fsub h l : diff_core fsub false h l h l = (StOk, []).
+Proof.
+  unfold diff_core. rewrite layout_eqb_refl. cbn [negb andb].
+  pose proof (tsl_diff_self l) as H. destruct (tsl_diff true l l) as [sd dd]. cbn [fst snd] in H.
+  rewrite H. reflexivity.
+Qed.
+Print Assumptions C11_sumdiff_clean_on_equal.
+
+Theorem C11_failure_leaves_existing_dest F src dh o until now :
+  r_status (copy_core F src (Some dh) o until now) <> StOk ->
+  r_dest (copy_core F src (Some dh) o until now) = Some dh.
+Proof. exact (copy_core_failure_leaves_dest F src dh o until now). Qed.
+Print Assumptions C11_failure_leaves_existing_dest.
